@@ -217,6 +217,7 @@ func (fx *FnExec) finish(st *State, fr *frame, results []Term) {
 	if st.retSite != nil {
 		retName = fx.ord(fr.fn, st.retSite, "return")
 	}
+	fx.curResults = append([]Term(nil), results...)
 	for i, c := range fc.Ensures {
 		v, err := env.safeEval(c.Expr)
 		if err != nil {
